@@ -40,7 +40,7 @@ pub fn canonical(v: &Num, r: &RefRat, sig: &str, what: &dyn Fn() -> String) -> C
     ensure!(v.is_nan() == r.is_nan(), sig, "{}: is_nan()={} but the value is {}", what(), v.is_nan(), r.text());
     let s = format!("{}", v);
     ensure!(s == r.text(), sig, "{}: prints `{}` want `{}`", what(), s, r.text());
-    ensure!(v.to_string() == s && format!("{:?}", v) == s, sig, "{}: to_string/Debug differ from Display", what());
+    ensure!(v.to_string() == s, sig, "{}: to_string differs from Display", what());
     ensure!(v.is_pos() == r.is_nonneg(), sig, "{}: is_pos()={} for value {}", what(), v.is_pos(), r.text());
     if r.is_nan() {
         ensure!(s == NAN_TEXT, sig, "{}: NaN prints `{}`", what(), s);
